@@ -3,7 +3,7 @@
 From Coq Require Import List NArith Bool.
 Import ListNotations.
 Require Import Parser SBase SFetch Pipe ScanFuel ScanFuelFetch ScanFuelTop.
-Require ScanFuelPrim ScanFuelDir ScanFuelFlow ScanFuelPlain ScanFuelBlock.
+Require ScanFuelPrim ScanFuelDir ScanFuelFlow ScanFuelPlain ScanFuelBlock ScanSafeStrTop.
 Local Open Scope nat_scope.
 
 Definition H_ws := ScanFuelPrim.skip_ws_to_eol_ok.
@@ -29,4 +29,14 @@ Proof.
   exact (fetch_next_token_never_out_of_fuel ScanFuelPrim.skip_to_next_token_ok H_ws ScanFuelPrim.skip_yaml_whitespace_ok
     (ScanFuelDir.scan_directive_ok H_ws) ScanFuelDir.scan_tag_ok ScanFuelDir.scan_anchor_ok
     (ScanFuelFlow.scan_flow_scalar_ok H_ws) ScanFuelPlain.scan_plain_scalar_ok (ScanFuelBlock.scan_block_scalar_ok H_ws)).
+Qed.
+
+(* total correctness of the string pipeline: every run ends properly *)
+Definition proper_pend (e : pend) : Prop :=
+  match e with PDone | PScanErr _ _ | PParseErr _ _ => True | PPanic _ | PFuel => False end.
+Lemma pipeline_ends_properly : forall orig : list N, proper_pend (snd (run_str orig)).
+Proof.
+  intros orig. pose proof (pipeline_never_out_of_fuel orig) as NF.
+  pose proof (ScanSafeStrTop.pipeline_never_panics_str orig) as NP.
+  destruct (snd (run_str orig)); cbn; auto. exact (NP _ eq_refl).
 Qed.
